@@ -106,7 +106,7 @@ def bounds(tier):
         "deviation_plan": uc.conf_plan(tier),
         "uncertain_sets": {str(l): _uncertain(tier, l) for l in (0, 1, 2, 3)},
         "max_states_per_set": {str(l): _max_sigma(tier, l) for l in (0, 1, 2, 3)},
-        "level_3": "effect chains: %d instances (a1.eff1 conditional x a2.eff1 removed x a2.eff2 conditional)" % len(chain_ids()),
+        "level_3": "effect chains: %d instances (a1.eff1 conditional x a2.eff1 removed x a2.eff2 conditional) + %d hand-written three-schema lose/regain/use problems" % (len(chain_ids()) - len(uc.HAND), len(uc.HAND)),
         "pool_sizes": {s: len(pl) for s, pl in uc.CONF_POOLS.items()},
     }
 
@@ -131,7 +131,7 @@ def chain_ids():
     cond = lambda x: bool(x) and any(e[3] is not None for e in x)
     c1 = [i for i, (x, _c) in enumerate(uc.CONF_POOLS["a1.eff1"]) if cond(x)]
     c2 = [j for j, (x, _c) in enumerate(uc.CONF_POOLS["a2.eff2"]) if cond(x)]
-    return [(3, (("a1.eff1", i), ("a2.eff1", 0), ("a2.eff2", j))) for i in c1 for j in c2]
+    return [(3, (("a1.eff1", i), ("a2.eff1", 0), ("a2.eff2", j))) for i in c1 for j in c2] + [(3, (("hand", i),)) for i in range(len(uc.HAND))]
 
 
 def shards(tier, seed):
